@@ -1,24 +1,26 @@
 """C08 configuration (see lib/props.py for the format)."""
 
 _H = "c08_handles"
+# a corrupted (cyclic) free list could spin; a case normally takes milliseconds
+_WD = ["--watchdog", "120"]
 
 PROP = dict(
     harnesses={_H: dict(sources=["harness/c08_handles.cpp"])},
     legs=[
-        dict(name="cabinet", harness=_H, flavour="asan", mode="cabinet", quick=100000, thorough=2000000, leaks=True),
+        dict(name="cabinet", harness=_H, flavour="asan", mode="cabinet", args=_WD, case_timeout=240, quick=100000, thorough=2000000, leaks=True),
         # 15-operation alphabet, every history of the given depth (15^5 quick, 15^7 thorough)
-        dict(name="cabinet-x5", harness=_H, flavour="asan", mode="cabinet-x", args=["--depth", "5"],
+        dict(name="cabinet-x5", harness=_H, flavour="asan", mode="cabinet-x", args=["--depth", "5"] + _WD, case_timeout=240,
              quick=759375, thorough=0, scalable=False, exhaustive=True, leaks=True),
-        dict(name="cabinet-x7", harness=_H, flavour="asan", mode="cabinet-x", args=["--depth", "7"],
+        dict(name="cabinet-x7", harness=_H, flavour="asan", mode="cabinet-x", args=["--depth", "7"] + _WD, case_timeout=240,
              quick=0, thorough=170859375, scalable=False, exhaustive=True, leaks=True),
-        dict(name="pool", harness=_H, flavour="asan", mode="pool", quick=60000, thorough=2000000, leaks=True),
-        dict(name="fd", harness=_H, flavour="asan", mode="fd", quick=60000, thorough=2000000, leaks=True),
+        dict(name="pool", harness=_H, flavour="asan", mode="pool", args=_WD, case_timeout=240, quick=60000, thorough=2000000, leaks=True),
+        dict(name="fd", harness=_H, flavour="asan", mode="fd", args=_WD, case_timeout=240, quick=60000, thorough=2000000, leaks=True),
         # 36-operation alphabet on three handles, every history of the given depth (36^4 quick, 36^5 thorough)
-        dict(name="fd-x4", harness=_H, flavour="asan", mode="fd-x", args=["--depth", "4"],
+        dict(name="fd-x4", harness=_H, flavour="asan", mode="fd-x", args=["--depth", "4"] + _WD, case_timeout=240,
              quick=1679616, thorough=0, scalable=False, exhaustive=True, leaks=True),
-        dict(name="fd-x5", harness=_H, flavour="asan", mode="fd-x", args=["--depth", "5"],
+        dict(name="fd-x5", harness=_H, flavour="asan", mode="fd-x", args=["--depth", "5"] + _WD, case_timeout=240,
              quick=0, thorough=60466176, scalable=False, exhaustive=True, leaks=True),
-        dict(name="lifetime", harness=_H, flavour="asan", mode="lifetime", quick=30000, thorough=1000000, leaks=True),
+        dict(name="lifetime", harness=_H, flavour="asan", mode="lifetime", args=_WD, case_timeout=240, quick=30000, thorough=1000000, leaks=True),
     ],
     rule=("cabinet: seeded histories of 60-260 operations on one Cabinet (alloc with/without object, update, free, at/[], clear, "
           "reserve, foreach whose visitor frees the current / another / a stale entry or looks entries up; live-entry cap drawn from "
